@@ -43,6 +43,7 @@ UNITS['c15'] = {
         ('end_uses_start', 'let end = position_to_utf8(text, r.end);', 'let end = position_to_utf8(text, r.start);', ['C15.change']),
         ('full_text_ignored', '*text = change.text;', '', ['C15.change']),
         ('close_removes_nothing', 'self.docs.remove(&loc);', '', ['C15.close']),
+        ('diagnostics_only_for_documents_with_errors', 'let mut diags = empty_list_for_every_key(&self.docs);', 'let mut diags = empty_list_for_every_key(&HashMap::new());', ['C15.diagnostics']),
         ('open_drops_text', 'self.docs.insert(loc.clone(), p.text_document.text);', 'self.docs.insert(loc.clone(), String::new());', ['C15.open']),
     ],
 }
@@ -568,7 +569,8 @@ PROPS = {
         'technique': 'Verus contracts on the real Workspace::{open,close,change} over an abstract document-store view, folded over arbitrary event histories; modular on the C16 contract of position_to_utf8',
         'level_text': 'Deductive proof (Verus/Z3) of the document-store part of the property only: for every history of didOpen/didChange/didClose '
                       'with protocol-conformant ranges, the server\'s text of each open document equals the client\'s (the real Workspace methods '
-                      'are verified and folded over an arbitrary event sequence). The rest of the statement (diagnostics freshness, request answers, '
+                      'are verified and folded over an arbitrary event sequence). Stale diagnostics are cleared: the real Workspace::diagnostics returns an entry for every document the store holds (an empty list unless an error is logged for it), consumes the error log, '
+                      'and changes no text of a held document (DESIGN 12.32). The rest of the statement (that refresh / main_loop publish that map before each answer, request answers, '
                       'process liveness outside change) is not decided, hence level other.',
         'level_note': 'Trusted: std String::replace_range (byte splice; panics unless start<=end on char boundaries), HashMap::get_mut frame spec, '
                       'Locator::from injective with a lawful Hash/Eq, position_to_utf8 by its C16 contract (proved in unit c16 and re-checked here). '
